@@ -108,8 +108,11 @@ claim("C16", "Lean 4 proof of history independence of the session model + differ
       "reset yields the bounds of a freshly built model. Tied to /repo: infer() on the fresh model, arbitrary inference / printing / state queries / "
       "resets, then reset_bounds()+infer(): both dumps identical and equal to the history-free Lean model; first-order and quantified programs likewise "
       "against the first-order model (sweep counts deliberately not compared).",
-      NOTE_COMMON + " Known findings D11 (contradictory first-order data) and D14 (fully_grounded quantifier whose instance set grows) are listed in "
-      "known_findings.json and replayed on every run; the first-order clause rests on correspondence plus the rerun oracle, not on a theorem.", "DESIGN.md §6 C16")
+      NOTE_COMMON + " First-order: C16_fol_data_untouched / C16_fol_reset_after_inference / C16_fol_reset_after_infer / C16_fol_reset_reads_data "
+      "(Lemmas/FolReset.lean): no first-order call sequence touches data, created rows carry the world default as data, and reset_bounds() after any "
+      "inference reads exactly as reset_bounds() before it. That the RERUN reproduces the first run is NOT a theorem and is false in two listed classes: "
+      "known findings D11 (contradictory first-order data) and D14 (quantifier whose instance set grows), replayed on every run and matched only when the "
+      "Lean model reproduces the same history dependence on that program (model_reproduces); oracles: rerun comparison, reset oracle, query-trace oracle.", "DESIGN.md §6 C16")
 claim("C02", "Lean 4 proof that every first-order step is sound w.r.t. every model of the ground instantiation (induction over call sequences, both join branches) + ground-instance differential oracle",
       "Theorems C02_sound_call / C02_sound / C02_sound_infer (for every quantifier-free first-order KB, weights >= 0, alpha <= 1: any interpretation "
       "v : formula x grounding -> [0,1] that satisfies the truth-function equation of every formula at every grounding and lies inside every stored "
